@@ -194,7 +194,7 @@ def main(tier, seed):
     nsc = 300 if tier == "quick" else 4000
     r2 = random.Random(seed + 16)
     fams = [("fibers", scenarios.fiber_scenarios(r2, nsc, nfib=3)), ("classes", scenarios.class_scenarios(r2, nsc)),
-            ("iteration", scenarios.iteration_scenarios(r2, nsc)), ("capture", scenarios.capture_scenarios()[::4] + scenarios.capture_order_scenarios()),
+            ("iteration", scenarios.iteration_scenarios(r2, nsc, exhaustive=False)), ("capture", scenarios.capture_scenarios()[::4] + scenarios.capture_order_scenarios()),
             ("switchcontexts", scenarios.fiber_switch_context_scenarios()), ("handlerintact", scenarios.handler_intact_scenarios()),
             ("loopstate", scenarios.loop_state_scenarios()), ("rangecache", scenarios.range_cache_scenarios()),
             ("retention", scenarios.closure_retention_scenarios()), ("thrownvalues", scenarios.thrown_value_scenarios()), ("fiberlifetimes", scenarios.fiber_lifetime_scenarios()), ("snippets", scenarios.snippet_scenarios(r2, nsc // 2))]
